@@ -24,8 +24,8 @@ CLAIMS = {
          "raw pointer arithmetic is modelled by its guard, not verified.",
          "Lean theorems on the read model + build-vs-build and trace correspondence"),
  'C06': ("Both code generators are rendered from one Generator differing only in transition/restart syntax; the model has one interpreter (attemptI is literally the state machine loop) and interpLex_eq_graphLex relates it to the walk; tail-call and state-machine builds compared verbatim on all requests (streams, partial mode, traces in thorough); stack: long inputs on a small stack and no call to a state function in the state-machine output.",
-         "stack usage of the compiled artefact is tested, not proved (partial).",
-         "model equality by construction + build-vs-build correspondence + stack tests"),
+         "stack clause: C06_state_machine_stack_constant / lexS_sm_peak (Stack.lean) - the interpreter with a frame counter never has more than three frames in use in the state-machine rendering, for every graph, input, callback table and number of consecutive skips, and returns what the tail-call rendering returns (lexS_fst); attemptS_tc_depth / nextLoopS_tc_skips: tail calls counted without frame reuse grow with transitions and skips. What a frame costs in the compiled artefact is rustc's: tied by the emitted text (transitions are `continue`; only _get_action takes (lex, offset, context)), by the stack address every callback invocation sees (spread 0 over millions of invocations in the state-machine builds; growth measured in the tail-call debug builds) and by 4 MiB inputs on a 64 KiB stack.",
+         "Lean theorems (one interpreter for both renderings; frame bound for the state machine) + build-vs-build correspondence + stack-address and small-stack probes"),
  'C07': ("C07_partial_safe (every well-formed graph, look-around included, no certificate): the items a partial lexer yields before None are a leading run of the one-shot items on any extension of the buffer, its span at None is empty at a position from which one-shot lexing reproduces the remaining items; partial_terminates; partial_eq_spec / partial_eq_specC (validated definitions whose waiting condition also validates: prefixOKB / prefixOKCB): the partial lexer equals the reference partial lexer, which waits exactly as long as the outcome can still change (some byte keeps a pattern viable, or - with look-around - the winner at the current position depends on what follows); compiled partial lexers over every prefix S[..k] vs the one-shot lexing of S (leading run, empty span, restart position) and vs the reference partial lexer.",
          "a look-around definition whose graph keeps a redundant late accept (waiting condition does not validate; one such definition in the corpus) is checked against the property's tolerance instead: never commits before the reference, commits at the latest one byte after it; callbacks that bump or inspect the remainder are outside C07_partial_safe (executed, not modelled).",
          "Lean theorems (safety for all well-formed graphs; equality with a reference partial lexer under the certificate, with and without look-around) + all-split-points correspondence"),
